@@ -15,6 +15,7 @@ import (
 	"strconv"
 	"strings"
 	"sync"
+	"time"
 	"unsafe"
 
 	"github.com/btcsuite/btcd/btcutil/v2"
@@ -425,6 +426,59 @@ func (P) Exec(line string) string {
 			same = bytes.Equal(w.Bytes(), b[:len(b)-rd.Len()])
 		}
 		return fmt.Sprintf("ok %s %s %s %d %s", m.Command(), dump(m, pver), re, rd.Len(), canonTok(same)) + allocTok(al)
+	case "varstr":
+		b := mustHex(f[2])
+		rd := bytes.NewReader(b)
+		str, err := wire.ReadVarString(rd, 0)
+		if err != nil {
+			return "err"
+		}
+		var w bytes.Buffer
+		wire.WriteVarString(&w, 0, str)
+		return fmt.Sprintf("ok %s %s %d", hx([]byte(str)), hx(w.Bytes()), rd.Len())
+	case "varbytes":
+		mx, _ := strconv.ParseUint(f[2], 10, 32)
+		b := mustHex(f[3])
+		rd := bytes.NewReader(b)
+		v, err := wire.ReadVarBytes(rd, 0, uint32(mx), "x")
+		if err != nil {
+			return "err"
+		}
+		var w bytes.Buffer
+		wire.WriteVarBytes(&w, 0, v)
+		return fmt.Sprintf("ok %s %s %d", hx(v), hx(w.Bytes()), rd.Len())
+	case "txout":
+		b := mustHex(f[2])
+		rd := bytes.NewReader(b)
+		var to wire.TxOut
+		if err := wire.ReadTxOut(rd, 0, 1, &to); err != nil {
+			return "err"
+		}
+		var w bytes.Buffer
+		wire.WriteTxOut(&w, 0, 1, &to)
+		if w.Len() != to.SerializeSize() {
+			return "size-differs"
+		}
+		return fmt.Sprintf("ok %d,%s %s %d", uint64(to.Value), hx(to.PkScript), hx(w.Bytes()), rd.Len())
+	case "outpoint":
+		var h chainhash.Hash
+		copy(h[:], mustHex(f[2]))
+		i, _ := strconv.ParseUint(f[3], 10, 32)
+		var w bytes.Buffer
+		wire.WriteOutPoint(&w, 0, 1, wire.NewOutPoint(&h, uint32(i)))
+		return hex.EncodeToString(w.Bytes())
+	case "addcap":
+		return execAddCap(f[2])
+	case "fromv2":
+		port, _ := strconv.ParseUint(f[3], 10, 16)
+		na := wire.NetAddressV2FromBytes(time.Unix(1231006505, 0), wire.ServiceFlag(1033), mustHex(f[2]), uint16(port))
+		m := wire.NewMsgAddrV2()
+		m.AddrList = append(m.AddrList, na)
+		var w bytes.Buffer
+		if err := m.BtcEncode(&w, wire.ProtocolVersion, wire.BaseEncoding); err != nil {
+			return "err"
+		}
+		return hex.EncodeToString(w.Bytes())
 	case "v2":
 		return execV2(f)
 	case "api":
@@ -1061,4 +1115,61 @@ func execMulti(mode string, subs []string) string {
 	}
 	wg.Wait()
 	return strings.Join(out, "#")
+}
+
+func execAddCap(kind string) string {
+	var h chainhash.Hash
+	n := 0
+	try := func(limit int, add func() error) string {
+		for i := 0; i < limit+3; i++ {
+			if err := add(); err != nil {
+				break
+			}
+			n++
+		}
+		return strconv.Itoa(n)
+	}
+	fin := func(res string, l int, m wire.Message) string {
+		var w bytes.Buffer
+		e := "enc-ok"
+		if err := m.BtcEncode(&w, wire.ProtocolVersion, wire.BaseEncoding); err != nil {
+			e = "enc-err"
+		}
+		return fmt.Sprintf("%s len=%d %s", res, l, e)
+	}
+	switch kind {
+	case "inv":
+		m := wire.NewMsgInv()
+		res := try(wire.MaxInvPerMsg, func() error { return m.AddInvVect(wire.NewInvVect(wire.InvTypeTx, &h)) })
+		return fin(res, len(m.InvList), m)
+	case "getdata":
+		m := wire.NewMsgGetData()
+		return try(wire.MaxInvPerMsg, func() error { return m.AddInvVect(wire.NewInvVect(wire.InvTypeTx, &h)) })
+	case "notfound":
+		m := wire.NewMsgNotFound()
+		return try(wire.MaxInvPerMsg, func() error { return m.AddInvVect(wire.NewInvVect(wire.InvTypeTx, &h)) })
+	case "headers":
+		m := wire.NewMsgHeaders()
+		res := try(wire.MaxBlockHeadersPerMsg, func() error { return m.AddBlockHeader(&wire.BlockHeader{}) })
+		return fin(res, len(m.Headers), m)
+	case "getblocks":
+		m := wire.NewMsgGetBlocks(&h)
+		res := try(wire.MaxBlockLocatorsPerMsg, func() error { return m.AddBlockLocatorHash(&h) })
+		return fin(res, len(m.BlockLocatorHashes), m)
+	case "getheaders":
+		m := wire.NewMsgGetHeaders()
+		return try(wire.MaxBlockLocatorsPerMsg, func() error { return m.AddBlockLocatorHash(&h) })
+	case "addr":
+		m := wire.NewMsgAddr()
+		res := try(wire.MaxAddrPerMsg, func() error { return m.AddAddress(&wire.NetAddress{}) })
+		return fin(res, len(m.AddrList), m)
+	case "cfheaders":
+		m := wire.NewMsgCFHeaders()
+		res := try(wire.MaxCFHeadersPerMsg, func() error { return m.AddCFHash(&h) })
+		return fin(res, len(m.FilterHashes), m)
+	case "merkleblock":
+		m := wire.NewMsgMerkleBlock(&wire.BlockHeader{})
+		return try(int(wire.VerifConstsC08()["maxTxPerBlock"]), func() error { return m.AddTxHash(&h) })
+	}
+	return "bad-op"
 }
